@@ -77,15 +77,15 @@ Fields == {"k", "t", "op", "a", "b", "n", "wa", "wb", "out", "metered", "words",
 Consistent(e) ==
   /\ Fields \subseteq DOMAIN e
   /\ e.t \in MeterTypeNames
-  /\ e.op \in OpsOf(MType(e.t))
-  /\ IsZ(e.metered) /\ ~e.metered.n
-  /\ e.wa = e.a.w                                           \* the operand has the described word length
-  /\ (e.op \in BinOps => e.wb = e.b.w)
-  /\ (e.op \in ShiftOps => e.n >= 0)
-  /\ e.words >= 0
-  \* size bounds: exact arithmetic for the unbounded types, the width for the others (which wrap or fail)
-  /\ (MType(e.t).bits = 0 /\ e.out = "ok" => e.words <= MaxWords(e))
-  /\ (MType(e.t).bits > 0 /\ e.out = "ok" => e.words <= MType(e.t).bits \div 64)
+  /\ LET T == MType(e.t)
+     IN /\ e.op \in OpsOf(T)
+        /\ IsZ(e.metered) /\ ~e.metered.n
+        /\ e.wa = e.a.w                                     \* the operand has the described word length
+        /\ (e.op \in BinOps => e.wb = e.b.w)
+        /\ (e.op \in ShiftOps => e.n >= 0)
+        /\ e.words >= 0
+        \* size bounds: exact arithmetic for the unbounded types, the width for the others (which wrap or fail)
+        /\ (e.out = "ok" => e.words <= (IF T.bits = 0 THEN MaxWords(e) ELSE T.bits \div 64))
 
 (* ---------------------------------------------------------------- deviations *)
 Two64 == MPow2(64)
